@@ -305,3 +305,86 @@ def build_check_polars(cs, dtype=None):
         cs["args"] = a
         return build_check(cs, None)
     return build_check(cs, None)
+
+
+# ------------------------------------------------------------------ pandas -> TableSpec
+
+
+class NotRepresentable(Exception):
+    pass
+
+
+def _cells_from_pandas(values, dtype_name):
+    import numpy as np
+    import pandas as pd
+
+    if dtype_name not in PHYS:
+        raise NotRepresentable(dtype_name)
+    out = []
+    for v in list(values):
+        if v is None or v is pd.NA or v is pd.NaT or (isinstance(v, float) and np.isnan(v)):
+            out.append(None)
+        elif dtype_name == "datetime64[ns]":
+            d = (pd.Timestamp(v) - pd.Timestamp(EPOCH)) / pd.Timedelta(days=1)
+            if d != int(d):
+                raise NotRepresentable("sub-day timestamp")
+            out.append(int(d))
+        elif isinstance(v, (np.generic,)):
+            out.append(v.item())
+        elif isinstance(v, (bool, int, float, str)):
+            out.append(v)
+        else:
+            raise NotRepresentable(type(v).__name__)
+    return out
+
+
+def table_from_pandas(obj):
+    """pandas DataFrame / Series -> TableSpec (raises NotRepresentable outside the vocabulary)."""
+    import pandas as pd
+
+    def index_spec(ix):
+        if isinstance(ix, pd.MultiIndex):
+            return {"multi": [{"name": ix.names[i], "phys": str(ix.get_level_values(i).dtype),
+                               "cells": _cells_from_pandas(ix.get_level_values(i).tolist(), str(ix.get_level_values(i).dtype))}
+                              for i in range(ix.nlevels)]}
+        if isinstance(ix, pd.RangeIndex) and ix.start == 0 and ix.step == 1 and ix.name is None:
+            return None
+        return {"name": ix.name, "phys": str(ix.dtype), "cells": _cells_from_pandas(ix.tolist(), str(ix.dtype))}
+
+    if isinstance(obj, pd.Series):
+        return {"columns": [{"name": obj.name, "phys": str(obj.dtype), "cells": _cells_from_pandas(obj.tolist(), str(obj.dtype))}],
+                "index": index_spec(obj.index)}
+    cols = []
+    for i, name in enumerate(obj.columns):
+        s = obj.iloc[:, i]
+        if not isinstance(name, str):
+            raise NotRepresentable("non-str column label")
+        cols.append({"name": name, "phys": str(s.dtype), "cells": _cells_from_pandas(s.tolist(), str(s.dtype))})
+    t = {"columns": cols, "index": index_spec(obj.index)}
+    if not cols and t["index"] is None:
+        t["nrows"] = len(obj)
+    return t
+
+
+def strip_parsers(spec):
+    """Same schema with every parsing option switched off."""
+    import copy
+
+    s = copy.deepcopy(spec)
+    for k in ("coerce", "add_missing_columns", "drop_invalid_rows"):
+        s[k] = False
+    if s.get("strict") == "filter":
+        s["strict"] = False
+    for c in s.get("columns", []):
+        c["coerce"] = False
+        c["default"] = None
+        c.pop("drop_invalid_rows", None)
+        c.pop("parsers", None)
+    ix = s.get("index")
+    if ix:
+        for l in (ix["multi"] if "multi" in ix else [ix]):
+            l["coerce"] = False
+        if "multi" in ix:
+            ix["coerce"] = False
+    s.pop("parsers", None)
+    return s
